@@ -47,7 +47,7 @@ func runC01(s *simrt.Sim) {
 	brr.SetSlowStart(ss)
 	epochs := 1
 	if !nofault {
-		epochs = tp.Range(1, 5, "epochs")
+		epochs = tp.Range(1, 6, "epochs")
 	}
 	var sample []string
 	nextName := n
@@ -58,9 +58,22 @@ func runC01(s *simrt.Sim) {
 			case 0: // availability change (what health checking does)
 				kind = "after_avail_change"
 				b := sub.Backends[tp.Draw(len(sub.Backends), "flip_which")]
+				var downs []*mBackend
+				for _, x := range sub.Backends {
+					if !x.Up {
+						downs = append(downs, x)
+					}
+				}
+				if len(downs) > 0 && tp.Chance(2, 3, "recover") {
+					b = downs[tp.Draw(len(downs), "recover_which")] // a health-check style recovery
+				}
 				b.Up = !b.Up
 				for _, rb := range brr.VerifBackends() {
 					if rb.AddrInfo == b.AddrInfo() {
+						if b.Up && tp.Chance(3, 4, "restart_mark") {
+							rb.SetRestart(true) // the health checker marks a recovered backend for slow start
+							s.Probe("restart_mark")
+						}
 						rb.SetAvail(b.Up)
 					}
 				}
@@ -100,8 +113,21 @@ func runC01(s *simrt.Sim) {
 			if ss > 0 {
 				// let any slow-start ramp finish: first call starts it, then wait it out
 				brr.Balance(bal_slb.WrrSmooth, nil)
-				time.Sleep(time.Duration(ss+1) * time.Second)
-				brr.Balance(bal_slb.WrrSmooth, nil)
+				// traffic during the ramp, at seeded instants
+				left := time.Duration(ss+1) * time.Second
+				for k := tp.Draw(6, "ramp_picks"); k > 0; k-- {
+					d := time.Duration(tp.Range(1, 1000*ss, "ramp_gap_ms")) * time.Millisecond
+					if d >= left {
+						break
+					}
+					time.Sleep(d)
+					left -= d
+					brr.Balance(bal_slb.WrrSmooth, nil)
+					s.Probe("pick_during_ramp")
+				}
+				// the ramp is over once SlowStartTime has elapsed: the very next
+				// selection already belongs to the stable epoch
+				time.Sleep(left)
 				s.Probe("slow_start_ramp_waited")
 			}
 		}
